@@ -32,6 +32,11 @@ type pitInst struct {
 	// name equal / prefix with CanBePrefix), whatever face the Data arrived on: key -> arrival time.
 	// Independent of the implementation's own satisfied flag and record clearing.
 	satAt map[string]time.Time
+	// entries created for (or holding nothing but) an Interest that was answered from the cache - a
+	// Data copy went back to the Interest's face within the arrival call: key -> arrival time. Such
+	// an entry is satisfied the moment it comes into being ("including entries created for Interests
+	// answered from the cache"), whatever records the forwarder keeps in it.
+	csHitAt map[string]time.Time
 	// C08.when findings made just BEFORE a periodic reaper run inside a T op (see step)
 	pre []report.Violation
 }
@@ -62,6 +67,10 @@ func newPitSys(slice, strategy, csMode, fib string, capacity int, own bool) *pit
 		Routes:     []fwsim.Route{{Prefix: "/a", Face: fwsim.N2, Cost: 1}, {Prefix: "/", Face: fwsim.N3, Cost: 2}},
 		Strategies: []fwsim.StrategyChoice{{Prefix: "/", Strategy: strategy}},
 	}
+	if strategy == "mix" {
+		// the strategy is chosen per prefix: best-route by default, multicast under /a/b
+		s.cfg.Strategies = []fwsim.StrategyChoice{{Prefix: "/", Strategy: fwsim.BestRoute}, {Prefix: "/a/b", Strategy: fwsim.Multicast}}
+	}
 	add := func(n string, f func(in *pitInst)) {
 		if _, dup := s.do[n]; dup {
 			report.Fatal("pit alphabet: duplicate op %q", n)
@@ -77,10 +86,7 @@ func newPitSys(slice, strategy, csMode, fib string, capacity int, own bool) *pit
 		}
 		add(label, func(in *pitInst) {
 			k := entryKey(name, cbp, mbf, "")
-			// a new Interest re-opens the entry: what an earlier Data satisfied is consumed
-			delete(in.satAt, k)
-			sent := in.sim.Interest(face, fwsim.InterestSpec{Name: name, CanBePrefix: cbp, MustBeFresh: mbf, Nonce: fwsim.U32(nonce), Lifetime: fwsim.Dur(life)}, fwsim.LP{})
-			in.recorded(k, life)
+			sent := in.interest(face, fwsim.InterestSpec{Name: name, CanBePrefix: cbp, MustBeFresh: mbf, Nonce: fwsim.U32(nonce), Lifetime: fwsim.Dur(life)}, fwsim.LP{}, k, life)
 			for _, x := range sent {
 				if x.Kind == fwsim.KInterest && len(x.PitToken) > 0 {
 					in.tokens = append(in.tokens, x.PitToken)
@@ -129,6 +135,8 @@ func newPitSys(slice, strategy, csMode, fib string, capacity int, own bool) *pit
 				addI(face, "/a/b", false, false, 1, life)
 				addI(face, "/a/b", false, true, 1, life)
 			}
+			// the root of the name tree holds PIT entries too
+			addI(face, "/", true, false, 1, time.Second)
 		}
 		for _, face := range []uint64{fwsim.N2, fwsim.N4, fwsim.L1} {
 			for _, name := range []string{"/a", "/a/b"} {
@@ -137,6 +145,28 @@ func newPitSys(slice, strategy, csMode, fib string, capacity int, own bool) *pit
 		}
 		addD(fwsim.N2, "/a/b", time.Second, "echo")
 		tops(100*time.Millisecond, 300*time.Millisecond)
+	case "pith":
+		// cache HITS: every Interest shape of the universe (exact, CanBePrefix, MustBeFresh, the
+		// zero-component name "/" with CanBePrefix, two faces, lifetimes 1 s and 4 s) against Data that
+		// is cached solicited or unsolicited, fresh (1 s) or stale at once; the entry an answered Interest
+		// created must go promptly under EVERY strategy (the strategy's AfterContentStoreHit decides
+		// what is left in the entry) - also when the strategy is chosen per prefix
+		s.maxLife = 4 * time.Second
+		for _, sh := range []struct {
+			face     uint64
+			name     string
+			cbp, mbf bool
+			life     time.Duration
+		}{{fwsim.L1, "/a", false, false, time.Second}, {fwsim.N4, "/a", false, false, 4 * time.Second}, {fwsim.L1, "/a", true, false, time.Second},
+			{fwsim.N4, "/a/b", false, false, time.Second}, {fwsim.L1, "/a/b", false, true, 4 * time.Second}, {fwsim.N4, "/", true, false, time.Second}, {fwsim.L1, "/", true, true, time.Second}} {
+			addI(sh.face, sh.name, sh.cbp, sh.mbf, 1, sh.life)
+		}
+		for _, name := range []string{"/a", "/a/b"} {
+			addD(fwsim.N2, name, time.Second, "none")
+			addD(fwsim.N2, name, -1, "none")
+		}
+		addD(fwsim.N2, "/a/b", time.Second, "echo")
+		tops(100*time.Millisecond, 300*time.Millisecond, 1100*time.Millisecond)
 	case "pitc":
 		// cache entries and pending Interests on the same / nested name-tree nodes: Data without
 		// FreshnessPeriod is stale at once, so a MustBeFresh Interest stays pending next to it (with
@@ -205,6 +235,42 @@ func newPitSys(slice, strategy, csMode, fib string, capacity int, own bool) *pit
 		report.Fatal("unknown pit alphabet %q", slice)
 	}
 	return s
+}
+
+// interest injects one Interest arrival for entry k and books it by what the property text says:
+// answered from the cache (a Data copy goes back to the arrival face within the call) = satisfied,
+// the entry created for it must go promptly; otherwise recorded with its lifetime.
+func (in *pitInst) interest(face uint64, is fwsim.InterestSpec, lp fwsim.LP, k string, life time.Duration) []fwsim.Send {
+	// a new Interest re-opens the entry: what an earlier Data satisfied is consumed
+	delete(in.satAt, k)
+	heldRecords := false
+	for _, e := range in.sim.Dump().Pit {
+		if entryKey(e.Name, e.CanBePrefix, e.MustBeFresh, e.Hint) == k && len(e.In)+len(e.Out) > 0 {
+			heldRecords = true
+		}
+	}
+	now := in.sim.Now()
+	sent := in.sim.Interest(face, is, lp)
+	answered := false
+	for _, x := range sent {
+		if x.Kind == fwsim.KData && x.Face == face {
+			answered = true
+		}
+	}
+	switch {
+	case answered && !heldRecords:
+		if _, ok := in.csHitAt[k]; !ok {
+			in.csHitAt[k] = now
+		}
+	case answered:
+		// the entry also holds Interests of other faces / earlier ones: their lifetimes govern (and
+		// whether the answered one counts as "recorded" is left open: the later deadline is taken)
+		in.recorded(k, life)
+	default:
+		delete(in.csHitAt, k)
+		in.recorded(k, life)
+	}
+	return sent
 }
 
 // recorded notes that an Interest with the given lifetime arrived for entry k: if the entry exists
@@ -281,9 +347,7 @@ func (s *pitSys) basePit(add func(string, func(in *pitInst)), addI func(uint64, 
 	add("I(f1,/a,n1,1s,nexthop=N2)", func(in *pitInst) {
 		nh := fwsim.N2
 		k := entryKey("/a", false, false, "")
-		delete(in.satAt, k)
-		in.sim.Interest(fwsim.L1, fwsim.InterestSpec{Name: "/a", Nonce: fwsim.U32(1), Lifetime: fwsim.Dur(time.Second)}, fwsim.LP{NextHopFaceID: &nh})
-		in.recorded(k, time.Second)
+		in.interest(fwsim.L1, fwsim.InterestSpec{Name: "/a", Nonce: fwsim.U32(1), Lifetime: fwsim.Dur(time.Second)}, fwsim.LP{NextHopFaceID: &nh}, k, time.Second)
 	})
 	// NextHopFaceId that the forwarder must refuse: a face that does not exist, and the arrival
 	// face itself. The Interest is dropped, but whatever PIT state it created must still drain.
@@ -295,20 +359,16 @@ func (s *pitSys) basePit(add func(string, func(in *pitInst)), addI func(uint64, 
 		add(fmt.Sprintf("I(f1,/a/b,n1,200ms,nexthop=%s)", v.label), func(in *pitInst) {
 			nh := v.nh
 			k := entryKey("/a/b", false, false, "")
-			delete(in.satAt, k)
-			in.sim.Interest(fwsim.L1, fwsim.InterestSpec{Name: "/a/b", Nonce: fwsim.U32(1), Lifetime: fwsim.Dur(200 * time.Millisecond)}, fwsim.LP{NextHopFaceID: &nh})
-			in.recorded(k, 200*time.Millisecond)
+			in.interest(fwsim.L1, fwsim.InterestSpec{Name: "/a/b", Nonce: fwsim.U32(1), Lifetime: fwsim.Dur(200 * time.Millisecond)}, fwsim.LP{NextHopFaceID: &nh}, k, 200*time.Millisecond)
 		})
 	}
 	// a burst of retransmissions with fresh nonces: every one moves the previous nonce to the dead
 	// nonce list, so >100 records fall due in the same reaper tick (the reaper removes <=100 per tick)
 	add("Burst(f1,/a/b,103 nonces,200ms)", func(in *pitInst) {
 		k := entryKey("/a/b", false, false, "")
-		delete(in.satAt, k)
 		for i := 0; i < 103; i++ {
-			in.sim.Interest(fwsim.L1, fwsim.InterestSpec{Name: "/a/b", Nonce: fwsim.U32(uint32(1000 + i)), Lifetime: fwsim.Dur(200 * time.Millisecond)}, fwsim.LP{})
+			in.interest(fwsim.L1, fwsim.InterestSpec{Name: "/a/b", Nonce: fwsim.U32(uint32(1000 + i)), Lifetime: fwsim.Dur(200 * time.Millisecond)}, fwsim.LP{}, k, 200*time.Millisecond)
 		}
-		in.recorded(k, 200*time.Millisecond)
 	})
 	for _, name := range []string{"/a", "/a/b"} {
 		for _, tok := range []string{"none", "echo"} {
@@ -352,7 +412,7 @@ func (in *pitInst) step(dt time.Duration) []report.Violation {
 }
 
 func (s *pitSys) New() any {
-	return &pitInst{sim: fwsim.New(s.cfg), bare: map[string]time.Time{}, deadline: map[string]time.Time{}, satAt: map[string]time.Time{}}
+	return &pitInst{sim: fwsim.New(s.cfg), bare: map[string]time.Time{}, deadline: map[string]time.Time{}, satAt: map[string]time.Time{}, csHitAt: map[string]time.Time{}}
 }
 func (s *pitSys) Ops(any) []explore.Op { return s.ops }
 func (s *pitSys) Do(i any, op explore.Op) {
@@ -400,6 +460,11 @@ func (in *pitInst) track() {
 	for k := range in.satAt {
 		if !present[k] {
 			delete(in.satAt, k)
+		}
+	}
+	for k := range in.csHitAt {
+		if !present[k] {
+			delete(in.csHitAt, k)
 		}
 	}
 	for _, e := range d.Pit {
@@ -457,6 +522,12 @@ func (in *pitInst) whenViolations() (v []report.Violation) {
 			v = append(v, report.Violation{Clause: "C08.when", Key: "PIT entry satisfied by Data keeps its records and is not removed promptly", Detail: fmt.Sprintf("entry %s cbp=%v mbf=%v held an unexpired Interest when a Data satisfying it arrived %v ago, and is still in the PIT with %d in-/%d out-records (satisfied flag=%v, queued=%v)", e.Name, e.CanBePrefix, e.MustBeFresh, now.Sub(t0), len(e.In), len(e.Out), e.Satisfied, e.Queued)})
 			continue
 		}
+		// "including entries created for Interests answered from the cache": gone within two reaper
+		// ticks of the answer, whatever the forwarder recorded in them
+		if t0, ok := in.csHitAt[entryKey(e.Name, e.CanBePrefix, e.MustBeFresh, e.Hint)]; ok && now.Sub(t0) > 2*tick && len(e.In)+len(e.Out) > 0 {
+			v = append(v, report.Violation{Clause: "C08.when", Key: "PIT entry created for an Interest answered from the cache keeps its records and is not removed promptly", Detail: fmt.Sprintf("entry %s cbp=%v mbf=%v was created for an Interest that was answered from the cache %v ago (the Data copy went back to the Interest's face within the arrival call) and is still in the PIT with %d in-/%d out-records (satisfied flag=%v, queued=%v, expires in %v)", e.Name, e.CanBePrefix, e.MustBeFresh, now.Sub(t0), len(e.In), len(e.Out), e.Satisfied, e.Queued, e.ExpireIn)})
+			continue
+		}
 		if len(e.In)+len(e.Out) > 0 {
 			// "no later than shortly after the latest lifetime among the Interests recorded in it"
 			dl, ok := in.deadline[entryKey(e.Name, e.CanBePrefix, e.MustBeFresh, e.Hint)]
@@ -488,6 +559,7 @@ func (s *pitSys) CheckState(i any) (v []report.Violation) {
 			clear(in.bare)
 			clear(in.deadline)
 			clear(in.satAt)
+			clear(in.csHitAt)
 			continue
 		}
 		in.track()
@@ -554,6 +626,9 @@ func (s *pitSys) Canon(i any) string {
 		if t0, ok := in.satAt[entryKey(e.Name, e.CanBePrefix, e.MustBeFresh, e.Hint)]; ok {
 			fmt.Fprintf(&b, " satisfied=%v", sat(now.Sub(t0)))
 		}
+		if t0, ok := in.csHitAt[entryKey(e.Name, e.CanBePrefix, e.MustBeFresh, e.Hint)]; ok {
+			fmt.Fprintf(&b, " cshit=%v", sat(now.Sub(t0)))
+		}
 		b.WriteString("]")
 	}
 	for _, q := range in.sim.Queue() {
@@ -583,10 +658,13 @@ func (s *pitSys) Canon(i any) string {
 }
 
 func buildPit(cfg string) explore.System {
-	f := strings.Fields(cfg) // pit|pitm|pitc|pitb|pito <strategy> cs|csa|nocs <fib> [cap=N] [own]
+	f := strings.Fields(cfg) // pit|pitm|pitc|pitb|pito|pith br|mc|mix cs|csa|nocs <fib> [cap=N] [own]
 	st := fwsim.BestRoute
 	if f[1] == "mc" {
 		st = fwsim.Multicast
+	}
+	if f[1] == "mix" {
+		st = "mix"
 	}
 	capacity := 2
 	own := false
@@ -610,6 +688,15 @@ func pitConfigs(th bool) []explore.Config {
 	var c []explore.Config
 	// (the small focused alphabets first: what they leave of their share of the budget goes to the
 	// wide base alphabet)
+	// cache hits x strategy (best-route, multicast, chosen per prefix) x FIB x capacity x reaper drive
+	for _, name := range []string{"pith mc cs nametree", "pith br cs hashtable", "pith mix cs nametree cap=1", "pith mc cs hashtable own"} {
+		c = append(c, explore.Config{Name: name, MaxDepth: d, MaxDev: -1})
+	}
+	if th {
+		for _, name := range []string{"pith br cs nametree own", "pith mix cs hashtable", "pith mc cs nametree cap=1", "pith br cs nametree cap=0"} {
+			c = append(c, explore.Config{Name: name, MaxDepth: d - 1, MaxDev: -1})
+		}
+	}
 	// multi-match / Data from a downstream face / lifetime 0
 	for _, name := range []string{"pitm br cs nametree", "pitm mc nocs hashtable"} {
 		c = append(c, explore.Config{Name: name, MaxDepth: d, MaxDev: -1})
